@@ -41,7 +41,16 @@ type Fixture struct {
 	Svr     *server.Server
 	cluster *tests.TestCluster
 	cancel  context.CancelFunc
-	orig    *core.Storage
+	orig    *core.Storage // the storage object the server created for itself (restored before Close)
+	// store is what the running server and its raft cluster (rule manager, replication-mode manager, ...) use
+	// as their storage: the server's own etcd-backed kv.Base behind a fault wrapper (clusterKV), installed
+	// BEFORE the cluster was bootstrapped so that the cluster's components were created on top of it. The
+	// wrapper is a pass-through unless a case installs a gate with ClusterGate.
+	store     *core.Storage
+	clusterKV *faultkv.KV
+	gateMu    sync.Mutex
+	gateG     uint64
+	gateFn    func(kind, key string) error
 
 	// base state (JSON) of every configuration section, captured after bootstrap
 	baseSchedule, baseReplication, basePDServer, baseReplMode, baseLabel []byte
@@ -145,11 +154,23 @@ func start() (f *Fixture, err error) {
 		return nil, fmt.Errorf("no leader elected")
 	}
 	ts := cl.GetServer(name)
-	if err = ts.BootstrapCluster(); err != nil {
-		return nil, fmt.Errorf("bootstrap: %v", err)
-	}
 	svr := ts.GetServer()
 	f = &Fixture{Svr: svr, cluster: cl, cancel: cancel, orig: svr.GetStorage()}
+	// Put the fault wrapper under the server's storage before bootstrapping: RaftCluster.Start (run by the
+	// bootstrap) hands s.GetStorage() to the rule manager, the replication-mode manager and the cluster itself.
+	// The leader campaign (reloadConfigFromKV, createRaftCluster) is over once IsLeader is true, so nothing
+	// else reads the field right now.
+	f.clusterKV = faultkv.New(f.orig.Base)
+	f.store = core.NewStorage(f.clusterKV, core.WithRegionStorage(f.orig.GetRegionStorage()))
+	if svr.GetPersistOptions().IsUseRegionStorage() {
+		f.store.SwitchToRegionStorage() // what reloadConfigFromKV did to the original object
+	}
+	f.clusterKV.SetGate(f.clusterGate)
+	svr.SetStorage(f.store)
+	if err = ts.BootstrapCluster(); err != nil {
+		svr.SetStorage(f.orig)
+		return nil, fmt.Errorf("bootstrap: %v", err)
+	}
 	deadline := time.Now().Add(30 * time.Second)
 	for {
 		if f.Healthy() {
@@ -258,7 +279,43 @@ func (f *Fixture) SwapStorage() *faultkv.KV {
 }
 
 // RestoreStorage puts the server's own (etcd) storage back.
-func (f *Fixture) RestoreStorage() { f.Svr.SetStorage(f.orig) }
+func (f *Fixture) RestoreStorage() { f.Svr.SetStorage(f.store) }
+
+func goid() uint64 {
+	b := make([]byte, 64)
+	b = b[:runtime.Stack(b, false)]
+	b = bytes.TrimPrefix(b, []byte("goroutine "))
+	var id uint64
+	for _, c := range b {
+		if c < '0' || c > '9' {
+			break
+		}
+		id = id*10 + uint64(c-'0')
+	}
+	return id
+}
+
+func (f *Fixture) clusterGate(kind, key string) error {
+	f.gateMu.Lock()
+	fn, g := f.gateFn, f.gateG
+	f.gateMu.Unlock()
+	if fn == nil || (kind != "save" && kind != "remove") || goid() != g {
+		return nil
+	}
+	return fn(kind, key)
+}
+
+// ClusterGate installs fn as a gate for the WRITES (save, remove) that the CALLING goroutine issues to
+// the cluster-level storage — the etcd-backed storage used by the raft cluster's components (placement
+// rule manager, replication-mode manager, store/region meta). fn returning an error fails that write
+// cleanly (not applied). Writes of every other goroutine (background jobs of the live server, HTTP
+// handlers) pass untouched, so an armed fault cannot be consumed by a background write. nil removes it.
+func (f *Fixture) ClusterGate(fn func(kind, key string) error) {
+	g := goid()
+	f.gateMu.Lock()
+	f.gateFn, f.gateG = fn, g
+	f.gateMu.Unlock()
+}
 
 // BaseSections returns the base configuration sections as JSON
 // (schedule, replication, pd-server, replication-mode, label-property).
